@@ -101,6 +101,27 @@ def gen_cases(ck, survey):
                     a, bb = (0, m) if rng.random() < 0.5 else rand_interval(rng, m)
                 synth.append({"layout": layout, "parts": parts, "a": a, "b": bb})
             fc["branches"][b["key"]] = {"kind": kind, "counts": b["counts"], "repart": rep, "synth": synth}
+        # "many events" baskets: the real events repeated until one basket holds more than 2^16 elements
+        big = sorted((b for b in brs if sum(b["counts"]) >= 600), key=lambda b: -sum(b["counts"]))
+        for b in big[:(len(big) if thorough else 2)]:
+            n, tot = b["n"], sum(b["counts"])
+            reps = -(-70000 // tot) + 1
+            if reps * n > 1200:
+                continue
+            layout = list(range(n)) * reps
+            acc, cut = 0, len(layout)
+            for i, j in enumerate(layout):
+                acc += b["counts"][j]
+                if acc > 65536 + 50:
+                    cut = i + 1
+                    break
+            m = len(layout)
+            cut = min(cut, m - 1)
+            a, bb = rand_interval(rng, m)
+            fc["branches"][b["key"]]["synth"] += [
+                {"layout": layout, "parts": [cut, m - cut], "a": 0, "b": m},
+                {"layout": layout, "parts": [cut, m - cut], "a": max(0, cut - 2), "b": min(m, cut + 2)},
+                {"layout": layout, "parts": [m // 3, m // 3, m - 2 * (m // 3)], "a": a, "b": bb}]
         per_file[fname] = fc
     return per_file
 
@@ -346,6 +367,8 @@ def run(ck: vlib.Check):
             exp = expected_from_model(mv)
             bc = per_file[fname]["branches"][rec["branch"]]
             case = (bc["synth"] if kind == "synth" else bc["repart"])[i]
+            if len(case.get("layout", [])) > 40:
+                case = {**case, "layout": case["layout"][:12] + ["... %d events" % len(case["layout"])]}
             if "error" in rec:
                 if exp is not None:
                     ck.tie_broken("correspondence", f"{fname}:{rec['branch']}:{kind}:{case}", f"implementation raised {rec['error']}, model returns a value")
@@ -375,6 +398,7 @@ def run(ck: vlib.Check):
                                   + ("; all 512 basket compositions of 10 events for every branch" if ck.tier == "thorough" else ""))
     # 5 violations: every mismatch of the direct property statement
     n_known = 0
+    per_kind = {}
     for m in allm:
         cg = (m["kind"] == "synth" and m["branch"].endswith("m_recCgemClusterCol") and m.get("values_equal")
               and not m.get("type_equal") and m.get("all_empty_basket_selected")
@@ -384,8 +408,13 @@ def run(ck: vlib.Check):
             ck.violation(KNOWN_CGEM, f"CGEM cluster branch: basket of only empty events has no m_recPositionY -> type differs from the "
                                      f"one-basket read (values equal): {m['file']} {m['detail']} got {m.get('got_type','')[:120]}", m)
         else:
-            ck.violation(viol_key(m), f"{m['kind']} differs from the full read: {json.dumps(m)[:600]}", m)
+            # every difference is a violation with its own key; at most 30 per (kind, file) are written out, the rest is counted
+            pk = (m["kind"], m["file"])
+            per_kind[pk] = per_kind.get(pk, 0) + 1
+            if per_kind[pk] <= 30:
+                ck.violation(viol_key(m), f"{m['kind']} differs from the full read: {json.dumps(m)[:600]}", m)
     ck.cov["cgem_empty_basket_cases"] = n_known
+    ck.cov["differences_by_kind_and_file"] = {f"{k[0]}:{k[1]}": v for k, v in per_kind.items()}
 
 
 def replay(path):
